@@ -528,6 +528,7 @@ impl Run {
                 "excluded_known": stats.excluded_known,
                 "counters": stats.extra,
                 "engine_events": driver::ENGINE_EVENTS.load(std::sync::atomic::Ordering::Relaxed),
+                "update_engine_calls_with_the_same_config_object_modified_by_setters": driver::CONFIG_OBJECTS_KEPT.load(std::sync::atomic::Ordering::Relaxed),
                 "parts": *self.parts.lock().unwrap(),
                 "known_findings_seen": known_hit.iter().collect::<Vec<_>>(),
                 "generator_health": health,
